@@ -1292,6 +1292,9 @@ def _m_getattr(ctx, o, name, *default):
 @register(builtins.hasattr)
 def _m_hasattr(ctx, o, name):
     from .interp import get_attr, PyExc, exc_class
+    if isinstance(o, (SInt, SReal, SBool)) and isinstance(name, str):
+        # a symbolic number has exactly the attributes of the Python number it stands for
+        return hasattr({SInt: 0, SReal: 0.0, SBool: False}[type(o)], name)
     try:
         get_attr(ctx, o, name)
         return True
@@ -1866,8 +1869,31 @@ def _m_uuid(ctx, *a, **k):
             return _uuid.UUID(*a, **k)
         except Exception as e:
             raise PyExc(e)
+    if not a and set(k) in ({'fields'}, {'fields', 'version'}):
+        # E-UUID (uuid.UUID.__init__ of CPython): six fields, each range-checked; with a version the variant bits become 10 and the
+        # version nibble is set.  Mathematical integers: the fields occupy disjoint bit ranges, so `|` is `+`.
+        f = k['fields']
+        version = k.get('version')
+        if not isinstance(f, (tuple, list)) or len(f) != 6 or (version is not None and not isinstance(version, int)):
+            raise Unsupported('uuid.UUID(fields=...) shape')
+        limits = [1 << 32, 1 << 16, 1 << 16, 1 << 8, 1 << 8, 1 << 48]
+        names = ['time_low', 'time_mid', 'time_hi_version', 'clock_seq_hi_variant', 'clock_seq_low', 'node']
+        ts = [as_int_term(x) for x in f]
+        for t, lim, nm in zip(ts, limits, names):
+            if not ctx.branch(z3.And(t >= 0, t < lim)):
+                py_raise(ValueError('field %s out of range' % nm))
+        tl, tm, thv, csh, csl, node = ts
+        if version is not None:
+            csh = (csh % 64) + 128
+            thv = (thv % 4096) + version * 4096
+        val = tl * (1 << 96) + tm * (1 << 80) + thv * (1 << 64) + csh * (1 << 56) + csl * (1 << 48) + node
+        attrs = {'int': SInt(val), 'time_low': SInt(tl), 'time_mid': SInt(tm), 'time_hi_version': SInt(thv), 'clock_seq_hi_variant': SInt(csh),
+                 'clock_seq_low': SInt(csl), 'node': SInt(node), 'clock_seq': SInt((csh % 64) * 256 + csl),
+                 'time': SInt((thv % 4096) * (1 << 48) + tm * (1 << 32) + tl), 'version': version,
+                 'bytes': SBytes(sym.int_to_bytes_be(val, 16, False))}
+        return SObj(_uuid.UUID, attrs)
     if a or set(k) != {'bytes'}:
-        raise Unsupported('uuid.UUID with symbolic arguments other than bytes=')
+        raise Unsupported('uuid.UUID with symbolic arguments other than bytes= / fields=')
     b = lift(k['bytes'])
     if not ctx.branch(z3.Length(b.t) == 16):
         py_raise(ValueError('bytes is not a 16-char string'))
